@@ -28,6 +28,9 @@ def load(prop=None, ids=None):
     return out
 
 
+ONLY_PROP = None
+
+
 def run_one(m, keep=False, build=True):
     tmp = tempfile.mkdtemp(prefix="wsmut_", dir=os.environ.get("TMPDIR", "/tmp"))
     res = dict(id=m["id"], prop=m["prop"], note=m.get("note", ""))
@@ -51,7 +54,7 @@ def run_one(m, keep=False, build=True):
                 return res
         fired = []
         outs = []
-        for prop in m["prop"].split(","):
+        for prop in ([ONLY_PROP] if ONLY_PROP else m["prop"].split(",")):
             ev = os.path.join(tmp, prop + ".json")
             c = subprocess.run([os.path.join(VERIF, "bin", "wscheck"), "-repo", dst, "-verif", tmp, "-prop", prop, "-tier", "quick", "-evidence", ev],
                                env=ENV, capture_output=True, text=True)
@@ -89,7 +92,11 @@ def main():
     ap.add_argument("--jobs", type=int, default=8)
     ap.add_argument("--keep", action="store_true")
     ap.add_argument("--nobuild", action="store_true")
+    ap.add_argument("--only-prop", action="store_true", help="run only the --prop check on each selected mutant")
     a = ap.parse_args()
+    global ONLY_PROP
+    if a.prop and a.only_prop:
+        ONLY_PROP = a.prop
     ms = load(a.prop, set(a.id.split(",")) if a.id else None)
     if not ms:
         print("no mutants selected")
@@ -108,7 +115,8 @@ def main():
     if a.write:
         os.makedirs(os.path.join(VERIF, "evidence"), exist_ok=True)
         name = "mutants.%s.json" % (a.prop or "all")
-        json.dump(dict(selected=len(results), applicable=len(app), detected=len(det), results=results), open(os.path.join(VERIF, "evidence", name), "w"), indent=1)
+        json.dump(dict(selected=len(results), applicable=len(app), detected=len(det), benign_silent=len([r for r in results if r["status"] == "benign-silent"]), false_alarms=fa,
+                       missed=[r["id"] for r in app if r["status"] == "MISSED"], results=results), open(os.path.join(VERIF, "evidence", name), "w"), indent=1)
     return 0
 
 
